@@ -99,7 +99,7 @@ func fieldInvoke(ins ssa.Instruction, named *types.Named, field, name string) *s
 
 func runC10(c *core.Ctx) {
 	runFixtures(c, "drop", "read", "paging")
-	c.Explain("Structural clauses of C10 decided from source (thin: byte/metadata equality with the source is behaviour): (R10.1) in the cache FS's Open the source is opened for content only under the ErrNotExist edge of the cache look-up of the same name, every other look-up error returns; (R10.2) on every path after a successful fill the returned handle was rewound with a successful SeekFile(f, 0, SeekStart) or is re-opened from the cache; (R10.3) the memoised FileInfo stored in the info table is the result of Stat() on a handle obtained from the source, stored only on its nil-error edge, under the name it was asked for; (R10.4) the cache's directory handle lists through the source file system and stats through the same memoised Stat. (R10.5) the fill removes the cache file on every failing exit after creating it and reads the Close error of the file it wrote (a store that commits on Close can fail there) — otherwise a later Open is served a truncated copy that differs from the source. (R10.7) the table in which the fill marks a partial file it could not remove is consulted in Open before the cache look-up, and an entry leaves it only on paths on which Remove of the cache file answered nil or ErrNotExist; (R10.6) every direct Read call in package cache is a delegation or a loop left only on an error / a full buffer whose successful returns looked at the latest count (a source may legally return short counts; a hand-written copy that stops at the first short block caches a prefix). (R10.8) its Seek computes the cursor from the caller's offset; (R10.9) the fill runs once per freshly opened handle; (R10.10/R10.11) the cache copy is created with and chmod-ed to the source's mode. (R10.12) = R11.4 under C10; (R10.13) = R16.12 on the cache's directory handle. R10.4 also requires every alternative of the paged listing to be the source ReadDir of the same call. NOT claimed: that returned names, kinds, sizes, modes and bytes equal the source's; 'without reading the source again' beyond the ordering; the RetainData policy.")
+	c.Explain("Structural clauses of C10 decided from source (thin: byte/metadata equality with the source is behaviour): (R10.1) in the cache FS's Open the source is opened for content only under the ErrNotExist edge of the cache look-up of the same name, every other look-up error returns; (R10.2) on every path after a successful fill the returned handle was rewound with a successful SeekFile(f, 0, SeekStart) or is re-opened from the cache; (R10.3) the memoised FileInfo stored in the info table is the result of Stat() on a handle obtained from the source, stored only on its nil-error edge, under the name it was asked for; (R10.4) the cache's directory handle lists through the source file system and stats through the same memoised Stat. (R10.5) the fill removes the cache file on every failing exit after creating it and reads the Close error of the file it wrote (a store that commits on Close can fail there) — otherwise a later Open is served a truncated copy that differs from the source. (R10.7) the table in which the fill marks a partial file it could not remove is consulted in Open before the cache look-up, and an entry leaves it only on paths on which Remove of the cache file answered nil or ErrNotExist; (R10.6) every direct Read call in package cache is a delegation or a loop left only on an error / a full buffer whose successful returns looked at the latest count (a source may legally return short counts; a hand-written copy that stops at the first short block caches a prefix). (R10.8) its Seek computes the cursor from the caller's offset; (R10.9) the fill runs once per freshly opened handle; (R10.10/R10.11) the cache copy is created with and chmod-ed to the source's mode. (R10.12) = R11.4 under C10; (R10.13) = R16.12 on the cache's directory handle. R10.4 also requires every alternative of the paged listing to be the source ReadDir of the same call. (R10.14) = R16.2 on the cache's directory handle; R10.7 also requires the mark to be read under the path lock. NOT claimed: that returned names, kinds, sizes, modes and bytes equal the source's; 'without reading the source again' beyond the ordering; the RetainData policy.")
 	c.Assume("A1: FS contract of source and cache file systems")
 	c.RuleDoc("R10.1", "cache look-up before source; only ErrNotExist falls through")
 	c.RuleDoc("R10.2", "handle returned after a fill starts at offset 0")
